@@ -1004,51 +1004,64 @@ theorem push_slice_window {α} (xs : List α) (s : Int) :
 theorem listSet_length {α} (l : List α) (n : Nat) (x : α) : (listSet l n x).length = l.length := by
   rw [listSet_eq_set]; simp
 
-/-- a negative index and `math.MaxInt` are rejected (the latter because `index+1` would wrap) -/
-theorem put_index_rejected (xs : List V) (key : String) (rest : Path) (value : V) (pre : Bool) (index : Int)
-    (hk : atoi key = some index) (hne : ¬(key = "" ∧ rest = [])) (hbad : index < 0 ∨ index = (maxInt : Int)) :
+theorem parseIndex_le_maxInt {s : String} {n : Nat} (h : parseIndex s = some n) : n ≤ maxInt := by
+  unfold parseIndex at h
+  simp only at h
+  repeat' split at h
+  all_goals first | (cases h; done) | (cases h; assumption)
+
+/-- a key that `ParseIndex` does not accept (anything but plain digits: signed numerals such as
+    "-1" or "+1" included) and `math.MaxInt` (where `index+1` would wrap) are rejected -/
+theorem put_index_rejected (xs : List V) (key : String) (rest : Path) (value : V) (pre : Bool)
+    (hne : ¬(key = "" ∧ rest = [])) (hbad : parseIndex key = none ∨ parseIndex key = some maxInt) :
     put (.arr xs) (key :: rest) value pre = .error .err := by
   unfold put
   have : (key == "" && rest.isEmpty) = false := by
     cases h1 : (key == "") <;> cases h2 : rest.isEmpty <;> simp_all
-  simp only [this, hk]
-  have : (index < 0 || index == (maxInt : Int)) = true := by
-    rcases hbad with h | h
-    · simp [h]
-    · simp [h]
-  simp [this]
+  rcases hbad with h | h <;> simp [this, h]
 
-/-- otherwise the element at `index` is written (padding with nulls up to it): the new array has
-    length `max len (index+1)`, `index+1` does not wrap, and no element outside is accessed. -/
+/-- an index more than `MaxArrayPadding` beyond the end of the array is rejected before any padding
+    is allocated (whatever the value; an unset beyond the end is rejected anyway) -/
+theorem put_padding_rejected (xs : List V) (key : String) (rest : Path) (value : V) (pre : Bool) (index : Nat)
+    (hk : parseIndex key = some index) (hpad : xs.length + maxArrayPadding < index) :
+    put (.arr xs) (key :: rest) value pre = .error .err := by
+  unfold put
+  split
+  · rfl
+  · simp only [hk]
+    have h1 : ¬ index < xs.length := by omega
+    have h2 : index - xs.length > maxArrayPadding := by omega
+    simp only [h1, h2, if_false, if_true]
+    split
+    · rfl
+    · split <;> rfl
+
+/-- otherwise the element at `index` is written (padding with nulls up to it): the key parsed as an
+    index (so `0 ≤ index`), `index+1` does not wrap, at most `MaxArrayPadding` nulls are added, the new
+    array has length `max len (index+1)`, and no element outside is accessed. -/
 theorem put_index_guard (xs : List V) (key : String) (rest : Path) (value : V) (pre : Bool) (nv prev : V)
     (h : put (.arr xs) (key :: rest) value pre = .ok (nv, prev)) :
-    ∃ (index : Int) (ys : List V), atoi key = some index ∧ 0 ≤ index ∧ index + 1 ≤ (maxInt : Int) ∧
-      nv = .arr ys ∧ ys.length = max xs.length (index.toNat + 1) := by
+    ∃ (index : Nat) (ys : List V), parseIndex key = some index ∧ index + 1 ≤ maxInt ∧
+      index ≤ xs.length + maxArrayPadding ∧
+      nv = .arr ys ∧ ys.length = max xs.length (index + 1) := by
   rw [put] at h
-  simp only at h
   split at h
   · cases h
   · split at h
     · cases h
     · rename_i index hk
+      have hmax := parseIndex_le_maxInt hk
       split at h
       · cases h
       · rename_i hguard
-        have hg : 0 ≤ index ∧ index ≠ (maxInt : Int) := by
-          simp only [Bool.or_eq_true, decide_eq_true_eq, beq_iff_eq, not_or] at hguard
-          omega
-        have hmax : index ≤ (maxInt : Int) := by
-          unfold atoi at hk
-          simp only at hk
-          repeat' split at hk
-          all_goals first | (cases hk; done) | (cases hk; unfold maxInt at *; omega)
+        have hg : index ≠ maxInt := by simpa using hguard
         refine ⟨index, ?_⟩
         split at h
         · rename_i hlt
           split at h
           · split at h
             · cases h
-              exact ⟨_, hk, hg.1, by omega, rfl, by rw [listSet_length]; omega⟩
+              exact ⟨_, hk, by omega, by omega, rfl, by rw [listSet_length]; omega⟩
             · cases h
           · cases h
         · rename_i hge
@@ -1056,10 +1069,13 @@ theorem put_index_guard (xs : List V) (key : String) (rest : Path) (value : V) (
           · cases h
           · split at h
             · cases h
-              refine ⟨_, hk, hg.1, by omega, rfl, ?_⟩
-              simp only [List.length_append, List.length_replicate, List.length_cons, List.length_nil]
-              omega
-            · cases h
+            · rename_i hpad
+              split at h
+              · cases h
+                refine ⟨_, hk, by omega, by omega, rfl, ?_⟩
+                simp only [List.length_append, List.length_replicate, List.length_cons, List.length_nil]
+                omega
+              · cases h
 
 
 /-! ### the sequential system and the session layer -/
